@@ -438,6 +438,7 @@ package z80
 //@   layer P
 //@   props C15
 //@   ensures cl != nil
+//@   ensures [independent] vsFreshMap(cl)
 //@   ensures vsForall16(func(k uint16) bool { return vsMapHas(cl, k) == vsMapHas(mm, k) && vsMapAt(cl, k) == vsMapAt(mm, k) })
 //@   modifies nothing
 //@ loop #0 vars cl MapMemory, visited [65536]bool
